@@ -1,21 +1,22 @@
 import re,sys,os
 os.chdir('/verif/lean')
+T, P, S, A, X = 'Proofs.GenTables', 'Proofs.GenPurity', 'Proofs.GenStore', 'Proofs.GenAxes', 'Proofs.GenPartial'
 extra = {
- 'C01': ['Xsel.Gen.axis_dispatch_agrees','Xsel.Gen.selector_cleanup_agrees'],
- 'C03': ['Xsel.Gen.selector_cleanup_agrees','Xsel.Gen.inplace_ops_on_fresh'],
- 'C06': ['Xsel.Gen.builtins_table_agree'],
- 'C02': ['Xsel.Gen.no_dropped_symbol','Xsel.Gen.handlers_agree'],
- 'C08': ['Xsel.Gen.no_shared_writes','Xsel.Gen.handlers_agree','Xsel.Gen.productions_agree','Xsel.Gen.no_dropped_symbol','Xsel.Gen.binary_handlers_have_two_children','Xsel.Gen.builtins_agree'],
- 'C10': ['Xsel.Gen.builder_not_event_recursive'],
- 'C13': ['Xsel.Gen.no_shared_writes','Xsel.Gen.inplace_ops_on_fresh'],
- 'C14': ['Xsel.Gen.no_shared_writes','Xsel.Gen.inplace_ops_on_fresh','Xsel.Gen.go_statements_only_in_cli','Xsel.Gen.one_write_per_block'],
- 'C11': ['Xsel.Gen.no_shared_writes'],
- 'C19': ['Xsel.Gen.no_shared_writes'],
- 'C20': ['Xsel.Gen.one_write_per_block'],
- 'C15': ['Xsel.Gen.partial_sites_covered','Xsel.Gen.binary_handlers_have_two_children'],
- 'C04': ['Xsel.Gen.builtins_agree','Xsel.Gen.builtins_table_agree'],
- 'C07': ['Xsel.Gen.builtins_agree','Xsel.Gen.builtins_table_agree'],
- 'C12': ['Xsel.Gen.builtins_agree','Xsel.Gen.builtins_table_agree'],
+ 'C01': [(A,'axis_dispatch_agrees'),(A,'selector_cleanup_agrees')],
+ 'C02': [(T,'no_dropped_symbol'),(T,'handlers_agree')],
+ 'C03': [(A,'selector_cleanup_agrees'),(P,'inplace_ops_on_fresh')],
+ 'C04': [(T,'builtins_agree'),(T,'builtins_table_agree')],
+ 'C06': [(T,'builtins_table_agree')],
+ 'C07': [(T,'builtins_agree'),(T,'builtins_table_agree')],
+ 'C08': [(T,'handlers_agree'),(T,'productions_agree'),(T,'no_dropped_symbol'),(T,'binary_handlers_have_two_children'),(T,'builtins_agree')],
+ 'C10': [(S,'builder_not_event_recursive')],
+ 'C11': [(P,'no_shared_writes')],
+ 'C12': [(T,'builtins_agree'),(T,'builtins_table_agree')],
+ 'C13': [(P,'no_shared_writes'),(P,'inplace_ops_on_fresh')],
+ 'C14': [(P,'no_shared_writes'),(P,'inplace_ops_on_fresh'),(P,'go_statements_only_in_cli'),(P,'one_write_per_block')],
+ 'C15': [(X,'partial_sites_covered'),(T,'binary_handlers_have_two_children')],
+ 'C19': [(P,'no_shared_writes')],
+ 'C20': [(P,'one_write_per_block')],
 }
 for p in sys.argv[1:]:
     f='Proofs/%s.lean'%p
@@ -24,13 +25,14 @@ for p in sys.argv[1:]:
     ns=re.search(r'^namespace (\S+)',src,re.M).group(1)
     names=re.findall(r'^theorem (\S+)',src,re.M)
     out='import Proofs.%s\n'%p
-    if p in extra: out+='import Proofs.Gen\n'
+    for m in sorted({m for m,_ in extra.get(p,[])}):
+        out+='import %s\n'%m
     seen=set()
     for n in names:
         if n in seen: continue
         seen.add(n)
         out+='#print axioms %s.%s\n'%(ns,n)
-    for n in extra.get(p,[]):
-        out+='#print axioms %s\n'%n
+    for _,n in extra.get(p,[]):
+        out+='#print axioms Xsel.Gen.%s\n'%n
     open('Audit/%s.lean'%p,'w').write(out)
     print(p,len(names),'+',len(extra.get(p,[])))
